@@ -114,6 +114,8 @@ def verify_contract(args):
             if status == "unknown":
                 status, dt2, model2, backend = try_other_solvers(ob, timeout_ms, status)
                 dt += dt2
+                if status == "sat" and model2 is not None:
+                    model = model2
             out["solver_s"] += dt
             if dt > slow[0]:
                 slow = (dt, ob.name)
@@ -217,6 +219,12 @@ def try_other_solvers(ob, timeout_ms, status):
     import tempfile
     from pyvc import engine
     t0 = time.time()
+    try:
+        st, _, model, backend = engine.solve_retry(ob, timeout_ms)
+        if st in ("unsat", "sat"):
+            return st, time.time() - t0, model, backend
+    except Exception:
+        pass
     try:
         smt = engine.smt2_of(ob)
         rundir = os.path.join(VERIF, ".run")
